@@ -962,6 +962,10 @@ def build_workload(run, model):
     for name in ("petersen", "K33", "shrikhande", "2xK4", "Q4"):
         n, e = gens.SKELETONS[name]
         mols.append(AM([6] * n, e, {0: 13} if name != "Q4" else {}, {}, "skeleton:" + name))
+    # atoms that carry an isotope mass and a radical at once (two attributes in one block of the string), always present
+    mols.append(AM([6, 1, 1, 1], [(0, 1), (0, 2), (0, 3)], {0: 13}, {0: 2}, "c14:mass+rad"))
+    mols.append(AM([8, 8, 6, 1], [(0, 2), (1, 2), (2, 3)], {0: 17, 1: 18, 3: 2}, {0: 2, 1: 3}, "c14:mass+rad"))
+    mols.append(AM([7, 6, 6, 17, 35], [(0, 1), (1, 2), (2, 3), (2, 4)], {0: 15, 3: 37}, {0: 2, 3: 1, 4: 2}, "c14:mass+rad"))
     for am in mols:
         add("canon", mol=am.to_json())
     # strings: the implementation's own output in this process + hand-written; classified by the model
@@ -1058,7 +1062,7 @@ def c14(run, model):
     tmp.close()
     try:
         orders = _orders(ops, rng, run.tier)
-        seeds = [0, 1, 2, 12345, rng.randrange(2 ** 32)] + ([] if quick else [rng.randrange(2 ** 32) for _ in range(7)])
+        seeds = [0, 1, 2, 3, 4, 5, 12345, rng.randrange(2 ** 32)] + ([] if quick else [rng.randrange(2 ** 32) for _ in range(8)])
         cfgs = []
         for hs in seeds:
             for oname, order in orders:
